@@ -2,12 +2,16 @@
 pub mod alloc;
 pub mod engine;
 pub mod gen;
+pub mod peer;
 pub mod refc;
 pub mod registry;
+pub mod seqs;
 pub mod tree;
 pub mod props {
     pub mod c01;
     pub mod c02;
+    pub mod c04;
+    pub mod c05;
     pub mod c13;
     pub mod c14;
     pub mod c15;
@@ -50,6 +54,9 @@ pub fn dispatch() -> Vec<(&'static str, RunFn, ReplayFn)> {
         ("C01", run_c01 as RunFn, props::c01::replay_c01 as ReplayFn),
         ("C02", props::c02::run, props::c02::replay),
         ("C03", run_c03, props::c01::replay_c03),
+        ("C04", props::c04::run, props::c04::replay),
+        ("C05", props::c05::run_c05, props::c05::replay_c05),
+        ("C06", props::c05::run_c06, props::c05::replay_c06),
         ("C13", props::c13::run, props::c13::replay),
         ("C14", props::c14::run, props::c14::replay),
         ("C15", props::c15::run, props::c15::replay),
